@@ -1,7 +1,7 @@
 (* C03 -- block manager transparency and structural coherence: property theorems only; each closed by
    `exact` and followed by Print Assumptions.  Models: SF/Blocks.v, SF/BlocksOps.v. *)
-Require Import SF.Prelude SF.PySlice SF.Dtype SF.Value SF.PyDyn SF.Blocks SF.BlocksOps SF.BlocksOpsVal Gen.Gen_util.
-Require Import Proofs.BlocksSelect Proofs.BlocksOps Proofs.BlocksOpsRow Proofs.BlocksOpsResolve Proofs.BlocksOpsResolveGen Proofs.BlocksOpsFill.
+Require Import SF.Prelude SF.PySlice SF.Dtype SF.Value SF.PyDyn SF.Blocks SF.BlocksOps SF.BlocksOpsVal Gen.Gen_util Gen.Gen_type_blocks.
+Require Import Proofs.BlocksSelect Proofs.BlocksRefine Proofs.BlocksOps Proofs.BlocksOpsRow Proofs.BlocksOpsResolve Proofs.BlocksOpsResolveGen Proofs.BlocksOpsFill Proofs.BlocksOpsExamples.
 
 (* Column selection through the blocks (directory, contiguous bundles, per-block slices) equals selection on
    the flattened columns, same error class, for every layout and every duplicate-free key (coordinator's core). *)
@@ -10,6 +10,12 @@ Theorem C03_select_columns_layout_independent : forall (A : Type) (t1 t2 : tb A)
   res_map flatten (M_select_columns t1 k) = res_map flatten (M_select_columns t2 k).
 Proof. exact (@select_columns_layout_independent). Qed.
 Print Assumptions C03_select_columns_layout_independent.
+
+(* TypeBlocks._cols_to_slice REGENERATED from /repo equals the typed function the selection theorem is about. *)
+Theorem C03_cols_to_slice_translated : forall l : list Z, l <> [] ->
+  cols_to_slice (of_zlist l) = of_slice (cols_to_slice_t l).
+Proof. exact cols_to_slice_refines. Qed.
+Print Assumptions C03_cols_to_slice_translated.
 
 (* Every per-block cellwise operation (isna, notna, unary operators, scalar binary operators, astype, isin:
    `for b in blocks: yield g(b)`) equals the per-column operation on the flattened columns -- result
